@@ -169,6 +169,8 @@ NOTES = {
  'C08-4': 'missed at first: bond with an extra coin attached added',
  'C09-4': 'missed at first: zero-fee epoch inside the grace window added',
  'C13-4': 'missed at first: receiver-directed open / expand weight steps added',
+ 'C04-3': 'first run inconclusive (kernel-stubbed counterexample): native predicate with a re-stated compute_d added to the C04 mint obligations',
+ 'C04-4': 'missed by C04 at first (caught by C07): collect step added to C04',
  'C03-1': 'C03 did not exist yet: built (swap.args)', 'C03-2': 'C03 did not exist yet: built (deposit.args / deposit.mint with native confirmation)',
 }
 
